@@ -514,6 +514,10 @@ def gen_fourbody(rng, event_idx=None, picks=None, namps=None, dangle=True, templ
     if rng.random() < 0.6:
         rng.shuffle(consts)        # Min / Max / N of a spline in any order
     rng.shuffle(params)
+    if rng.random() < 0.2:
+        # a fit-parameter line written a second time further down (a tuned value appended below the original, word for word or with another value):
+        # the file still converts, to both languages alike
+        params.append(("free_without_error", 0, repr(round(rng.uniform(0.1, 2), 4)), "0") if rng.random() < 0.5 else ("fixed_with_error", 2, "1.25", "0.25"))
     return {"event": event, "lines": lines, "params": params, "consts": consts, "cartesian": rng.choice([None, None, 0, 1]), "extras": []}
 
 
